@@ -142,6 +142,32 @@ where
 
     /// Return the state with a new constraint
     pub fn with_constraint(mut self, constraint: Rc<dyn Constraint<U, E>>) -> State<U, E> {
+        if let Some(tree_newc) = constraint.downcast_ref::<DisequalityConstraint<U, E>>() {
+            // A new disequality that a stored one already subsumes is redundant: it is
+            // neither announced to the user nor stored.
+            if self.cstore.iter().any(|storec| {
+                storec
+                    .downcast_ref::<DisequalityConstraint<U, E>>()
+                    .map_or(false, |tree_storec| tree_storec.subsumes(tree_newc))
+            }) {
+                return self;
+            }
+            // Stored disequalities that the new one subsumes are redundant: they leave the
+            // store through take_constraint so that the user sees them go.
+            let redundant = self
+                .cstore
+                .iter()
+                .filter(|storec| {
+                    storec
+                        .downcast_ref::<DisequalityConstraint<U, E>>()
+                        .map_or(false, |tree_storec| tree_newc.subsumes(tree_storec))
+                })
+                .cloned()
+                .collect::<Vec<Rc<dyn Constraint<U, E>>>>();
+            for storec in redundant.iter() {
+                self = self.take_constraint(storec).0;
+            }
+        }
         U::with_constraint(&mut self, &constraint);
         self.cstore_to_mut().push_and_normalize(constraint);
         self
